@@ -148,6 +148,18 @@ def run(chk):
             chk.violation('a constructed message does not survive compose -> parse_exact_size: "%s" gives %s' % (l[:160], o[:80]),
                           {'cmd': l, 'impl': o, 'predicate': 'constructed-message'}, None, True)
     chk.coverage['constructed_messages'] = len(msg_lines)
+    # constructed objects of every binary protocol class: each attrs field of an object parsed from a repository vector
+    # replaced by other values of its type (attr.evolve: only what the constructor accepts), composed, parsed back, compared
+    from harness import objgen
+    seen_c = set()
+    for _cls, name, oname, v, field, idx, pred, detail in objgen.sweep_constructed():
+        key = objgen.finding_key(oname, field, pred)
+        if key in seen_c:
+            continue
+        seen_c.add(key)
+        chk.violation('%s with %s replaced: %s' % (name, field, detail),
+                      {'class': name, 'input': v.hex(), 'field': field, 'candidate': idx, 'predicate': 'constructed-' + pred}, key, True)
+    chk.coverage['constructed_objects'] = getattr(objgen.sweep_constructed, 'count', 0)
     seen = set()
     for name, v, pred, detail in sweep_originals():
         key = rt.finding_key(family(name), name, pred, 'orig', v)
@@ -180,6 +192,17 @@ def replay(path):
         for p, d in fails:
             print('%s: %s' % (p, d))
         ok = not any(p == r.get('predicate') for p, _ in fails)
+    elif str(r.get('predicate', '')).startswith('constructed-') and 'field' in r:
+        from harness import objgen
+        mod, q = r['class'].rsplit('.', 1)
+        cls = sweep.resolve(mod, q)
+        obj, _ = cls.parse_immutable(bytes.fromhex(r['input']))
+        fails = []
+        for field, idx, o2 in objgen.variants(obj):
+            if field == r['field'] and idx == r['candidate']:
+                fails = list(objgen.constructed_failures(cls, o2))
+                print('%s.%s := %r -> %s' % (q, field, getattr(o2, field), fails or 'round trip holds'))
+        ok = not fails
     elif r.get('predicate') == 'constructed-message':
         from harness import impl
         o = impl.impl_line(r['cmd'])
